@@ -52,6 +52,16 @@ SIMF = {
     "z80": [("ld a, (0x%04x)", 8)],
 }
 
+# store-to-memory templates: instruction text (data address), command that puts the value in the source register
+SIMW = {
+    "msp430": [("mov.b r7, &0x%04x", "set r7=0x%x")],
+    "6502": [("sta 0x%04x", "set a=0x%x")],
+    "65816": [("sta 0x%04x", "set a=0x%x")],
+    "z80": [("ld (0x%04x), a", "set a=0x%x")],
+    "stm8": [("ld $%04x, A", "set a=0x%x")],
+}
+
+
 def model_plan_addrs(plan, bpa):
     """rough size of the image a plan builds (keeps the whole-image disasm check to small images)"""
     n = len(plan["load"]["data"]) // 2 if plan["load"] else 0
@@ -224,6 +234,10 @@ class C19(Engine):
                     off = rng.pick([-4, -8, -32768, -2 if wd <= 2 else -4, -1 if wd == 1 else -4, 0, 4, 32764])
                     d = (a & 0xffff0000) + 0x8000 + 4 * rng.below(64)
                     plan["ops"].append({"op": "simstep", "addr": a, "imm": 0, "rel": [mn, wd, sg, off, d, list(rng.bytes(4))]})
+                elif cpu in SIMW and rng.chance(1, 3):
+                    # what the simulator stores is what print shows afterwards - also at the top and bottom of the 64 KiB space
+                    d = rng.pick([0xffff, 0xfffe, 0xff00, 0x240 + rng.below(64), 0x3c0 + rng.below(64)])
+                    plan["ops"].append({"op": "simstep", "addr": a, "imm": rng.below(256), "store": 0, "daddr": d})
                 elif cpu in SIMF and rng.chance(1, 2):
                     f = rng.below(len(SIMF[cpu]))
                     d = 0x240 + 2 * rng.below(32) + (a & 0x3000)
@@ -327,6 +341,8 @@ class C19(Engine):
                 if "fetch" in op:
                     # position dependent (symbolic mode): assembled where it will be placed
                     src = ".%s\n.org 0x%x\n  %s\n" % (cpu, op["addr"], SIMF[cpu][op["fetch"]][0] % op["daddr"])
+                if "store" in op:
+                    src = ".%s\n.org 0x%x\n  %s\n" % (cpu, op["addr"], SIMW[cpu][op["store"]][0] % op["daddr"])
                 o = ex.call(build_request(MODE_ASM, ["naken_asm", "-type", "bin", "-o", "i.bin", "a.asm"], {"/sim/w/a.asm": src.encode()}))
                 res.absorb(o)
                 digests.append(o.digest())
@@ -412,6 +428,20 @@ class C19(Engine):
                     if sg and v & (1 << (8 * wd - 1)):
                         v |= 0xffffffff & ~((1 << (8 * wd)) - 1)
                     op = dict(op, imm=v)
+                if "store" in op:
+                    if op["daddr"] <= a + len(blob) + 4 and op["daddr"] + 4 >= a:
+                        continue         # (never over its own instruction)
+                    console.append(SIMW[cpu][op["store"]][1] % op["imm"])
+                    expect.append(("none", None))
+                    console.append("write 0x%x %s" % (a, " ".join("0x%02x" % b for b in blob)))
+                    expect.append(("write", (1, a, list(blob))))
+                    touch(a * bpa, len(blob))
+                    touch(op["daddr"] * bpa, 1)
+                    console.append("set pc=0x%x" % a)
+                    expect.append(("none", None))
+                    console.append("step")
+                    expect.append(("simstore", (a, op["daddr"], op["imm"], len(blob))))
+                    continue
                 if "fetch" in op:
                     w = 2 if SIMF[cpu][op["fetch"]][1] == 16 else 1
                     console.append("%s 0x%x 0x%x" % ("write16" if w == 2 else "write", op["daddr"], op["imm"]))
@@ -501,8 +531,10 @@ class C19(Engine):
             elif cur is not None:
                 cur.append(l)
         if len(segs) != len(console):
-            res.unparsed += 1
-            res.probe("transcript_unparsed")
+            # every command of the script is echoed after a prompt; a transcript that stops short means the session ended
+            # before its quit (the process exited inside a command)
+            res.viol("session:ended-before-quit", status=o.status, reached=console[len(segs) - 1] if segs else "(load)",
+                     tail=text[-300:])
             return res
         if load:
             m = re.search(r"Loaded \S+ of type (\w+) / (\S+) from 0x([0-9a-f]+) to 0x([0-9a-f]+)", text)
@@ -657,6 +689,15 @@ class C19(Engine):
                     res.probe("bad_command_rejected")
                 else:
                     res.probe("bad_command_other_output")
+            elif kind == "simstore":
+                a, d, v, ilen = payload
+                m = re.search(r"^.! 0x([0-9a-f]+):", joined, re.M)
+                if m and int(m.group(1), 16) != a:
+                    res.viol("simstore:executed-at-other-address:%s" % cpu, cmd=console[idx - 3:idx + 1], shown=m.group(0))
+                    continue
+                wr(d * bpa, v)           # observed by the prints that follow and by the final sweep
+                res.probe("simstore_stepped")
+                res.probe("simstore_stepped:" + cpu)
             elif kind == "simstep":
                 a, imm, ilen = payload
                 tmpl, bits, rre, pcre, _ = SIM[cpu]
